@@ -4,6 +4,7 @@ package main
 
 import (
 	"fmt"
+	"go/types"
 
 	"golang.org/x/tools/go/ssa"
 )
@@ -21,6 +22,7 @@ func runC18(w *World, r *Report, tier string) {
 	r.Rule("R2", "a failed Ping stops the ticker, closes the transport and returns; a successful Ping goes back to the select")
 	r.Rule("R3", "the quit case returns; no Ping is reachable after it")
 	r.Rule("R4", "XMPPTransport.Ping writes the constant \"\\n\" exactly once on the connection and returns an error on a write error or a short write")
+	r.Rule("R6", "closing means closing: every implementation of Transport.Close closes the underlying connection on every path on which there is one — a failed farewell write does not leave the socket open (keepalive's way of making a dead connection visible to the receive loop)")
 	r.Rule("R5", "every session-establishing entry point (Client.Connect, Client.Resume) starts one keepalive on every path that can report success")
 
 	ka := w.Func("xmpp.keepalive")
@@ -226,4 +228,78 @@ func runC18(w *World, r *Report, tier string) {
 		})
 		r.Check(bad == "" && n > 0, "R5", k, w.pos(f.Pos()), bad, fmt.Sprintf("%d success path(s), one keepalive each", n))
 	}
+
+	// ---- R6: Transport.Close really closes
+	var closeImpls []*ssa.Function
+	if it, ok := w.Named("xmpp.Transport").Underlying().(*types.Interface); ok {
+		for _, T := range w.implementers(it) {
+			if sel := w.Prog.MethodSets.MethodSet(T).Lookup(nil, "Close"); sel != nil {
+				if f := w.unwrap(w.Prog.MethodValue(sel)); f != nil && f.Blocks != nil {
+					closeImpls = append(closeImpls, f)
+				}
+			}
+		}
+	}
+	for _, impl := range closeImpls {
+		if w.TestSupport[impl] {
+			continue
+		}
+		key := w.funcKey(impl)
+		bad := ""
+		n := 0
+		isConnClose := func(in ssa.Instruction) bool {
+			c := asCall(in)
+			if c == nil {
+				return false
+			}
+			k := w.callKey(c)
+			if k == "net.Conn.Close" || k == "nhooyr.io/websocket.Conn.Close" || k == "io.Closer.Close" {
+				return true
+			}
+			return false
+		}
+		// a module callee that closes the connection on all of its paths where there is one counts as closing
+		closes := func(in ssa.Instruction) bool {
+			if isConnClose(in) {
+				return true
+			}
+			c, ok := in.(*ssa.Call)
+			if !ok {
+				return false
+			}
+			callee := c.Call.StaticCallee()
+			if callee == nil || callee.Blocks == nil || !w.inModule(callee) || callee == impl {
+				return false
+			}
+			return len(w.callsIn(callee, "net.Conn.Close", "nhooyr.io/websocket.Conn.Close", "io.Closer.Close")) > 0
+		}
+		err := walkPaths(entryLoc(impl), nil, nil, 50000, func(path []ssa.Instruction, end pathEnd) {
+			ret, ok := path[len(path)-1].(*ssa.Return)
+			if !ok {
+				return
+			}
+			n++
+			if countOn(path, closes) > 0 {
+				return
+			}
+			// no connection to close on this path?
+			noConn := pathAsserts(path, func(c ssa.Value, truth bool) bool {
+				x, eq, ok := nilCompare(c)
+				if !ok || eq != truth {
+					return false
+				}
+				f, _ := loadedField(x)
+				return f != nil && (f.Name() == "conn" || f.Name() == "wsConn")
+			})
+			if !noConn {
+				bad = "Close returns at " + w.ipos(ret) + " without having closed the connection"
+			}
+		})
+		if err != nil {
+			r.Undecided("R6", key, w.pos(impl.Pos()), err.Error())
+			continue
+		}
+		r.Check(bad == "" && n > 0, "R6", key, w.pos(impl.Pos()), bad+": after a failed keepalive the socket stays open, the receive loop stays blocked in Read and the loss is never reported", fmt.Sprintf("%d path(s), each closes the connection or has none", n))
+	}
+	r.Floor("R6", 2)
 }
